@@ -350,7 +350,11 @@ func (g *Gen) Next() Step {
 			if c == nil {
 				continue
 			}
-			return Step{Op: op, C: c.CID}
+			st := Step{Op: op, C: c.CID}
+			if op == "reget" && r.Chance(0.4) {
+				st.Sub = "iter"
+			}
+			return st
 		case "popall":
 			c := g.pickTarget(false, true)
 			if c == nil {
